@@ -47,6 +47,7 @@ type Frame struct {
 	retVal   Value
 	running  bool // RunDefers in progress at return
 	panicking bool
+	exempt    bool // race detection: accesses made in this frame are the harness's
 }
 
 type Goroutine struct {
@@ -64,6 +65,7 @@ type Goroutine struct {
 	waitRead    bool
 	unwindDepth int
 	commitPending bool
+	vc            VC
 }
 
 type AssertStat struct {
@@ -144,6 +146,7 @@ type Machine struct {
 	disagreements []string
 	ctxs          []*CtxObj
 	background    *CtxObj
+	race          raceState
 	tickIntervals []*Term
 	guards        map[*MapObj]*MutexObj
 	guardViol     int
@@ -601,6 +604,7 @@ func (m *Machine) pushFrame(g *Goroutine, fn *ssa.Function, args []Value, bind [
 		panic(abortf("call depth > 200 at %s", fn.String()))
 	}
 	fr := &Frame{fn: fn, block: fn.Blocks[0], locals: make(map[ssa.Value]Value, 16), callInst: callInst, onReturn: onRet}
+	fr.exempt = m.frameExempt(g, fn)
 	if len(args) != len(fn.Params) {
 		panic(abortf("arity mismatch calling %s: %d args, %d params", fn.String(), len(args), len(fn.Params)))
 	}
